@@ -83,10 +83,14 @@ fn c04_compact_describes_same_set() {
             i += 1;
         }
     }
-    assert!(c.estimate() == s.estimate(), "compact estimate differs");
+    // (estimates are compared in exact mode only: with a symbolic theta the two float divisions
+    // n / (theta / MAX) do not decide in 15 min; both sides read the same two integers checked above)
     if theta == MAX_THETA {
         assert!(s.estimate() == n as f64, "exact mode must report exactly the distinct count");
+        assert!(c.estimate() == n as f64, "compact estimate differs in exact mode");
         assert!(!s.is_estimation_mode() && !c.is_estimation_mode());
+    } else {
+        assert!(s.is_estimation_mode() && c.is_estimation_mode());
     }
     kani::cover!(n == 3 && ordered);
     kani::cover!(forced && !ordered);
@@ -391,19 +395,8 @@ fn put_u64(b: &mut [u8], o: usize, v: u64) {
     }
 }
 
-//@ props: C13
-//@ tier: quick
-//@ timeout: 1800
-//@ functions: theta::CompactThetaSketch::deserialize
-//@ functions: theta::CompactThetaSketch::deserialize_v1
-//@ functions: theta::CompactThetaSketch::deserialize_v2
-//@ functions: theta::CompactThetaSketch::deserialize_v3
-//@ bounds: images built by the harness's spec encoder from abstract states with 0..=2 entries: serial version 1 (always 3 preLongs), serial version 2 with preLongs 1 (empty), 2 (exact) and 3 (estimating), serial version 3 single-item form (preLongs 1, no count field)
-//@ desc: every legacy / foreign compact-theta image variant is read back to the state it encodes: entries, theta, emptiness (non-empty unless it encodes an empty sketch), ordered
-#[kani::proof]
-#[kani::unwind(12)]
-#[kani::stub(alloc::fmt::format, stub_format)]
-fn c13_theta_foreign_versions() {
+/// One foreign image variant per case (CASE), built by the harness's spec encoder from a symbolic state.
+fn foreign_case<const CASE: u8>() {
     let theta: u64 = kani::any();
     kani::assume(theta >= 3 && theta <= MAX_THETA);
     let e0: u64 = kani::any();
@@ -411,77 +404,135 @@ fn c13_theta_foreign_versions() {
     kani::assume(e0 >= 1 && e0 < e1 && e1 < theta);
     let n: usize = kani::any();
     kani::assume(n >= 1 && n <= 2);
-    // ---- serial version 1: [preLongs=3, 1, 3, 0,0,0,0,0][count u32, pad u32][theta][entries]
+    let th: u64 = kani::any(); // theta of the zero-entry estimating images
+    kani::assume(th >= 1 && th < MAX_THETA);
     let mut img = [0u8; 48];
-    img[0] = 3;
-    img[1] = 1;
-    img[2] = 3;
-    img[8] = n as u8;
-    put_u64(&mut img, 16, theta);
-    put_u64(&mut img, 24, e0);
-    put_u64(&mut img, 32, e1);
-    let r = CompactThetaSketch::deserialize(&img[..24 + 8 * n]);
-    let g = crate::verif_kani_common::expect_ok(r, "valid v1 image rejected");
-    assert!(g.entries.len() == n && g.entries[0] == e0 && g.theta == theta && !g.empty && g.ordered, "v1 image decoded to a different state");
-    core::mem::forget(g);
-    // ---- serial version 2, exact: [preLongs=2, 2, 3, 0,0, flags, seedhash][count u32, pad][entries]
-    let mut img = [0u8; 48];
-    img[0] = 2;
-    img[1] = 2;
-    img[2] = 3;
+    img[2] = 3; // family
     img[6] = 0xCC;
     img[7] = 0x93;
-    img[8] = n as u8;
-    put_u64(&mut img, 16, e0);
-    put_u64(&mut img, 24, e1);
-    let r = CompactThetaSketch::deserialize(&img[..16 + 8 * n]);
-    let g = crate::verif_kani_common::expect_ok(r, "valid v2 exact image rejected");
-    assert!(g.entries.len() == n && g.entries[0] == e0 && g.theta == MAX_THETA, "v2 exact image: entries / theta");
-    assert!(!g.empty, "v2 exact image with entries decoded as an empty sketch");
-    assert!(g.estimate() == n as f64, "v2 exact image: estimate is not the number of entries");
-    core::mem::forget(g);
-    // ---- serial version 2, estimating: preLongs=3
-    let mut img = [0u8; 48];
-    img[0] = 3;
-    img[1] = 2;
-    img[2] = 3;
-    img[6] = 0xCC;
-    img[7] = 0x93;
-    img[8] = n as u8;
-    put_u64(&mut img, 16, theta);
-    put_u64(&mut img, 24, e0);
-    put_u64(&mut img, 32, e1);
-    let r = CompactThetaSketch::deserialize(&img[..24 + 8 * n]);
-    let g = crate::verif_kani_common::expect_ok(r, "valid v2 estimating image rejected");
-    assert!(g.entries.len() == n && g.entries[n - 1] == if n == 2 { e1 } else { e0 } && g.theta == theta && !g.empty, "v2 estimating image decoded to a different state");
-    core::mem::forget(g);
-    // ---- serial version 2, empty: preLongs=1
-    let mut img = [0u8; 8];
-    img[0] = 1;
-    img[1] = 2;
-    img[2] = 3;
-    img[6] = 0xCC;
-    img[7] = 0x93;
-    let r = CompactThetaSketch::deserialize(&img);
-    let g = crate::verif_kani_common::expect_ok(r, "valid v2 empty image rejected");
-    assert!(g.entries.is_empty() && g.empty && g.theta == MAX_THETA);
-    core::mem::forget(g);
-    // ---- serial version 3 single item: preLongs=1, flags read-only|compact|ordered|single(32), one hash
-    let mut img = [0u8; 16];
-    img[0] = 1;
-    img[1] = 3;
-    img[2] = 3;
-    img[5] = 2 | 8 | 16 | 32;
-    img[6] = 0xCC;
-    img[7] = 0x93;
-    put_u64(&mut img, 8, e0);
-    let r = CompactThetaSketch::deserialize(&img);
-    let g = crate::verif_kani_common::expect_ok(r, "valid v3 single-item image rejected");
-    assert!(g.entries.len() == 1 && g.entries[0] == e0 && g.theta == MAX_THETA && !g.empty && g.ordered, "v3 single-item image decoded to a different state");
-    assert!(g.estimate() == 1.0);
-    core::mem::forget(g);
-    kani::cover!(n == 2);
+    match CASE {
+        // serial version 1: [preLongs=3, 1, 3, 0,0,0,0,0][count u32, pad u32][theta][entries]
+        1 => {
+            img[0] = 3;
+            img[1] = 1;
+            img[6] = 0;
+            img[7] = 0;
+            img[8] = n as u8;
+            put_u64(&mut img, 16, theta);
+            put_u64(&mut img, 24, e0);
+            put_u64(&mut img, 32, e1);
+            let g = crate::verif_kani_common::expect_ok(CompactThetaSketch::deserialize(&img[..24 + 8 * n]), "valid v1 image rejected");
+            assert!(g.entries.len() == n && g.entries[0] == e0 && g.entries[n - 1] == if n == 2 { e1 } else { e0 }, "v1 image: entries");
+            assert!(g.theta == theta && !g.empty && g.ordered, "v1 image: theta / emptiness / ordering");
+            core::mem::forget(g);
+        }
+        // serial version 2, exact: [preLongs=2, 2, 3, 0,0, flags, seedhash][count u32, pad][entries]
+        2 => {
+            img[0] = 2;
+            img[1] = 2;
+            img[8] = n as u8;
+            put_u64(&mut img, 16, e0);
+            put_u64(&mut img, 24, e1);
+            let g = crate::verif_kani_common::expect_ok(CompactThetaSketch::deserialize(&img[..16 + 8 * n]), "valid v2 exact image rejected");
+            assert!(g.entries.len() == n && g.entries[0] == e0 && g.theta == MAX_THETA, "v2 exact image: entries / theta");
+            assert!(!g.empty, "v2 exact image with entries decoded as an empty sketch");
+            assert!(g.estimate() == n as f64, "v2 exact image: estimate is not the number of entries");
+            core::mem::forget(g);
+        }
+        // serial version 2, estimating: preLongs=3
+        3 => {
+            img[0] = 3;
+            img[1] = 2;
+            img[8] = n as u8;
+            put_u64(&mut img, 16, theta);
+            put_u64(&mut img, 24, e0);
+            put_u64(&mut img, 32, e1);
+            let g = crate::verif_kani_common::expect_ok(CompactThetaSketch::deserialize(&img[..24 + 8 * n]), "valid v2 estimating image rejected");
+            assert!(g.entries.len() == n && g.entries[n - 1] == if n == 2 { e1 } else { e0 } && g.theta == theta && !g.empty, "v2 estimating image decoded to a different state");
+            core::mem::forget(g);
+        }
+        // serial version 2, empty: preLongs=1
+        4 => {
+            img[0] = 1;
+            img[1] = 2;
+            let g = crate::verif_kani_common::expect_ok(CompactThetaSketch::deserialize(&img[..8]), "valid v2 empty image rejected");
+            assert!(g.entries.is_empty() && g.empty && g.theta == MAX_THETA);
+            core::mem::forget(g);
+        }
+        // serial version 3 single item: preLongs=1, flags read-only|compact|ordered|single(32), one hash
+        5 => {
+            img[0] = 1;
+            img[1] = 3;
+            img[5] = 2 | 8 | 16 | 32;
+            put_u64(&mut img, 8, e0);
+            let g = crate::verif_kani_common::expect_ok(CompactThetaSketch::deserialize(&img[..16]), "valid v3 single-item image rejected");
+            assert!(g.entries.len() == 1 && g.entries[0] == e0 && g.theta == MAX_THETA && !g.empty && g.ordered, "v3 single-item image decoded to a different state");
+            assert!(g.estimate() == 1.0);
+            core::mem::forget(g);
+        }
+        // estimating images that retain nothing (count 0, theta < 1.0): a NON-empty sketch, v1 / v2 / v3
+        6 => {
+            img[0] = 3;
+            img[1] = 1;
+            img[6] = 0;
+            img[7] = 0;
+            put_u64(&mut img, 16, th);
+            let g = crate::verif_kani_common::expect_ok(CompactThetaSketch::deserialize(&img[..24]), "valid v1 zero-entry image rejected");
+            assert!(g.entries.is_empty() && g.theta == th && !g.empty, "v1 estimating image without entries decoded as empty / lost theta");
+            core::mem::forget(g);
+        }
+        7 => {
+            img[0] = 3;
+            img[1] = 2;
+            put_u64(&mut img, 16, th);
+            let g = crate::verif_kani_common::expect_ok(CompactThetaSketch::deserialize(&img[..24]), "valid v2 zero-entry image rejected");
+            assert!(g.entries.is_empty() && g.theta == th && !g.empty, "v2 estimating image without entries decoded as empty / lost theta");
+            core::mem::forget(g);
+        }
+        _ => {
+            img[0] = 3;
+            img[1] = 3;
+            img[5] = 2 | 8 | 16;
+            put_u64(&mut img, 16, th);
+            let g = crate::verif_kani_common::expect_ok(CompactThetaSketch::deserialize(&img[..24]), "valid v3 zero-entry image rejected");
+            assert!(g.entries.is_empty() && g.theta == th && !g.empty && g.ordered, "v3 estimating image without entries decoded as empty / lost theta");
+            core::mem::forget(g);
+        }
+    }
 }
+
+macro_rules! theta_foreign {
+    ($name:ident, $case:expr) => {
+        #[kani::proof]
+        #[kani::unwind(12)]
+        #[kani::stub(alloc::fmt::format, stub_format)]
+        fn $name() {
+            foreign_case::<$case>();
+            kani::cover!(true);
+        }
+    };
+}
+
+//@ family: theta_foreign
+//@ props: C13
+//@ tier: quick
+//@ timeout: 900
+//@ functions: theta::CompactThetaSketch::deserialize
+//@ functions: theta::CompactThetaSketch::deserialize_v1
+//@ functions: theta::CompactThetaSketch::deserialize_v2
+//@ functions: theta::CompactThetaSketch::deserialize_v3
+//@ unwind: 12
+//@ bounds: one image variant per instance, built by the harness's spec encoder from a symbolic abstract state with 0..=2 entries and symbolic theta: serial version 1 (always 3 preLongs); serial version 2 with preLongs 1 (empty), 2 (exact), 3 (estimating); serial version 3 single-item form; estimating images without entries (count 0, theta < 1.0) in versions 1, 2, 3
+//@ desc: the legacy / foreign compact-theta image variant is read back to the state it encodes: entries, theta, emptiness (non-empty unless it encodes an empty sketch), ordered
+theta_foreign!(c13_theta_v1, 1);
+theta_foreign!(c13_theta_v2_exact, 2);
+theta_foreign!(c13_theta_v2_estimating, 3);
+theta_foreign!(c13_theta_v2_empty, 4);
+theta_foreign!(c13_theta_v3_single_item, 5);
+theta_foreign!(c13_theta_v1_zero_entries, 6);
+theta_foreign!(c13_theta_v2_zero_entries, 7);
+theta_foreign!(c13_theta_v3_zero_entries, 8);
+//@ endfamily: x
 
 fn v4_case<const N: usize>() {
     // entries are built from symbolic deltas of at most DELTA_BITS bits so that the bit width is symbolic
